@@ -3,3 +3,11 @@ reg("C10", "E2-hist", "explicit-state BFS over the real TrieDict (reachable-stat
     "Every reachable structural state of the real TrieDict over 7 keys x 3 values (closure, histories of any length) and every assignment sequence up to length 3/4 over 15 keys (no state merging) is visited; in each state every public query on every key of length 0..4 is compared with a plain dict. This is exhaustive within the universe, which is the right level for a 200-line container whose defects are sequence-dependent counter/sentinel bugs.",
     "Trusted: the reference dict, the structural hash (merging argument in DESIGN.md 3.2), CPython 3.12. Keys limited to tokens {a,b,c}, values to {None,1,2}.",
     "6/C10")
+reg("C09", "E2-hist", "explicit-state BFS over the real HostnameTrieSet (reachable-state closure) + all add sequences to depth L over a spelling universe, against a set of label tuples",
+    "All reachable structural states of the real HostnameTrieSet under add() over 14 hostnames on {a,b} and 12 on {a,b,c} (complete closures), a depth-bounded merged BFS over 39 hostnames, and every add sequence up to length 4/5 over 10 spellings (case, whitespace, punycode/Unicode); in every state match() on every query host in 7 URL embeddings, len and iteration are compared with the reference set. Order independence follows because all histories reaching a set are visited.",
+    "Trusted: reference set model, structural hash, CPython idna codec. IP literals/localhost excluded as documented.",
+    "6/C09")
+reg("C08", "E2-hist+E1-grid", "explicit-state BFS over SuffixTrie.add sequences of arbitrary rule lists + exhaustive enumeration of hostnames derived from every bundled rule, against the publicsuffix.org algorithm",
+    "(b) every rule list reachable by <= 3 (quick) / 4 (thorough) adds over 32 rules (normal, wildcard, exception) on a 2-label alphabet, merged by structural hash, and the full closure of a 10-rule family; every hostname of depth <= 4 queried in every state. (a) every one of the 9,952 bundled rules as host, with extra labels, instantiated wildcards, exception labels and all proper suffixes, in 5 spellings, for split_suffix / get_domain_name / has_valid_suffix, and every bundled TLD in 4 spellings. All compared with an independent PSL reference.",
+    "Trusted: refpsl reference (no implicit '*' rule, per the statement); rule sets where two exception rules match the same host are skipped (the PSL algorithm does not define them); bundled data is read as data.",
+    "6/C08")
